@@ -241,5 +241,27 @@ def run(chk):
                         if p is not None:
                             chk.add(Finding("R18-cleanup", "R18-cleanup::index-shift", "an element is removed by index and the index is still advanced in the same iteration: the block following every removed block is skipped, so adjacent invalid IF_DATA blocks survive", fb.where(e[4])))
     chk.rule("R18-cleanup", "Vec<IfData> holders visited by ifdata_cleanup (%d in the model) and the keep filter" % len(holders), n, floor=12)
+    # ------------------------------------------------------------------ R18-typespec
+    # the A2ML type parser: the function that reads a `taggedunion` (definition or reference to a named one) produces
+    # A2mlTypeSpec::TaggedUnion and nothing else; likewise for taggedstruct / struct / enum
+    nts = 0
+    for kind, var in (("taggedunion", "TaggedUnion"), ("taggedstruct", "TaggedStruct"), ("struct", "Struct"), ("enum", "Enum")):
+        fid = "a2ml::parse_aml_type_" + kind
+        fb = prog.bodies.get(fid)
+        if fb is None:
+            chk.add(Finding("R18-typespec", "R18-typespec::anchor::" + kind, fid + " not found"))
+            continue
+        built = set()
+        for bi, si, st in fb.stmts():
+            if st["k"] == "assign" and st["rv"]["r"] == "agg" and st["rv"].get("kind") == "adt" and st["rv"]["adt"].endswith("A2mlTypeSpec"):
+                built.add(st["rv"]["v"])
+        nts += 1
+        if built != {var}:
+            chk.add(Finding("R18-typespec", "R18-typespec::%s::%s" % (kind, ",".join(sorted(built))), "%s builds A2mlTypeSpec::{%s}: a %s (also one that only refers to a named definition) must become A2mlTypeSpec::%s, otherwise IF_DATA is checked against the wrong multiplicity rules" % (fid, ", ".join(sorted(built)), kind, var), fb.where()))
+    chk.rule("R18-typespec", "A2ML compound type parsers that build exactly their own A2mlTypeSpec variant", nts, floor=4)
+    # ------------------------------------------------------------------ R18-maxlen
+    from . import c06
+    diag.compare(chk, "R18-maxlen", "parser", c06.parser_table(prog), "length test of char[n] strings (get_string_maxlen) with its control predicate, compared with the reviewed table", floor=1,
+                 fn_filter=lambda fn: fn.endswith("::get_string_maxlen"))
     chk.assumptions += ["not decided: agreement of parser and definition for all definitions (language semantics)",
                         "oracle/diag_table.json (section ifdata) is a reviewed snapshot of semantic facts"]
